@@ -1,5 +1,8 @@
 import Martian.Invocation
 import Martian.InvocationStr
+import Martian.JsonBytes
+import Martian.InvocationText
+import Martian.InvocationJson
 import Driver.Util
 
 /-!
@@ -186,14 +189,35 @@ def showArg : Arg → String
   | .plain e => "P " ++ join (showExp e)
   | .split e => "S " ++ join (showExp e)
 
+def parseKV (p : String) : Option (List UInt8 × List UInt8) :=
+  match p.splitOn ":" with
+  | [k, v] => do
+    let k ← bytesOfHex k
+    let v ← bytesOfHex v
+    pure (k, v)
+  | _ => none
+
+/-- strconv as given by the harness: `<neg>:<m>:<e>=<hex text>,…` (`.` = no float) -/
+def parseG (s : String) : Option Martian.InvocationText.G :=
+  if s == "." then some ⟨fun _ => [], fun _ => ⟨false, 0, 0⟩⟩ else do
+    let tbl ← (s.splitOn ",").mapM fun p =>
+      match p.splitOn "=" with
+      | [f, t] => do
+        let f ← parseFlt f
+        let t ← bytesOfHex t
+        pure (f, t)
+      | _ => none
+    pure ⟨fun f => ((tbl.find? fun p => p.1 == f).map (·.2)).getD [],
+          fun t => ((tbl.find? fun p => p.2 == t).map (·.1)).getD ⟨false, 0, 0⟩⟩
+
+def parseArgStr (s : String) : Option Arg :=
+  match tokens s with
+  | "S" :: r => (parseExpStr (" ".intercalate r)).map .split
+  | "P" :: r => (parseExpStr (" ".intercalate r)).map .plain
+  | _ => none
+
 def handle (op : String) (args : List String) : Option String :=
   match op, args with
-  | "convert", [t, j] => do
-    let t ← parseTypeStr t
-    let j ← parseJStr j
-    match convert t j with
-    | some e => pure ("some " ++ join (showExp e))
-    | none => pure "none"
   | "encode", [e] => do
     let e ← parseExpStr e
     pure (join (showJ (encode e)))
@@ -206,10 +230,21 @@ def handle (op : String) (args : List String) : Option String :=
       pure ("some " ++ showArg a ++ " | " ++ boolStr (dataOfBinding a).1 ++ " "
         ++ join (showJ (dataOfBinding a).2) ++ " | " ++ boolStr a.printable)
     | none => pure "none"
-  | "wt", [t, e] => do
+  | "jwt", [t, j] => do
+    -- JSON-side typing (hypothesis of convert_wt) and the well-typedness of the conversion
     let t ← parseTypeStr t
-    let e ← parseExpStr e
-    pure (boolStr (wt t.base t.arrayDim t.mapDim e) ++ " " ++ boolStr (intsOk e))
+    let j ← parseJStr j
+    pure (boolStr (jWt t.base t.arrayDim t.mapDim j) ++ " " ++ boolStr (jIntsOk j) ++ " " ++
+      (match convert t j with
+        | some e => boolStr (wt t.base t.arrayDim t.mapDim e)
+        | none => "none"))
+  | "bindok", [t, a] => do
+    -- the hypotheses of binding_roundtrip on a real binding: `<wt | splitOperandOk> <intsOk>`
+    let t ← parseTypeStr t
+    let a ← parseArgStr a
+    pure (match a with
+      | .plain e => boolStr (wt t.base t.arrayDim t.mapDim e) ++ " " ++ boolStr (intsOk e)
+      | .split e => boolStr (splitOperandOk t e) ++ " " ++ boolStr (intsOk e))
   | "fltint", [f] => do
     let f ← parseFlt f
     pure ("text=" ++ (if f.textAsInt then "int " ++ showInt f.intVal else "float")
@@ -230,6 +265,47 @@ def handle (op : String) (args : List String) : Option String :=
   | "unq", [t] => do
     let t ← bytesOfHex t
     pure (optHex (Martian.Lexer.unquoteBytes t))
+  | "jsontree", [b] => do
+    -- bytes of a JSON value → the invocation tree (grammar model + ParseFloat rounding): `some <json>` | `none`
+    let b ← bytesOfHex b
+    pure (match Martian.InvocationJson.treeOfBytes b with
+      | some j => "some " ++ join (showJ j)
+      | none => "none")
+  | "textleg", [g, e] => do
+    -- the REAL text leg on one expression: `wf=<b> fok=<b> text=<hex> back=<exp>|none`
+    let g ← parseG g
+    let e ← parseExpStr e
+    let back := match Martian.InvocationText.textLeg g e with
+      | some e' => join (showExp e')
+      | none => "none"
+    pure ("wf=" ++ boolStr (Martian.InvocationText.wfText g e) ++ " fok=" ++
+      boolStr (Martian.InvocationText.floatsOk g e) ++ " text=" ++
+      hexOfBytes (Martian.InvocationText.printExp g e) ++ " back=" ++ back)
+  | "calltext", g :: name :: binds => do
+    -- the REAL text leg on a call: bindings as `<hex id>=<arg>`; `wf=<b> fok=<b> text=<hex> back=<name> <id>=<arg>;…|none`
+    let g ← parseG g
+    let name ← bytesOfHex name
+    let bs ← binds.mapM fun b =>
+      match b.splitOn "=" with
+      | [k, a] => do
+        let k ← bytesOfHex k
+        let a ← parseArgStr a
+        pure (k, a)
+      | _ => none
+    let back := match Martian.InvocationText.callTextLeg g name bs with
+      | some (n, bs') => hexOfBytes n ++ " " ++ ";".intercalate (bs'.map fun b => hexOfBytes b.1 ++ "=" ++ showArg b.2)
+      | none => "none"
+    pure ("wf=" ++ boolStr (Martian.InvocationText.wfCallText g name bs) ++ " fok=" ++
+      boolStr (Martian.InvocationText.floatsOkBinds g bs) ++ " text=" ++
+      hexOfBytes (Martian.InvocationText.printCall g name bs) ++ " back=" ++ back)
+  | "encmap", [h, m] => do
+    -- sorted-key raw-message map writer: `<khex>:<vhex>,…` (`.` = empty map)
+    let h ← if h == "0" then some false else if h == "1" then some true else none
+    let ps ← if m == "." then some [] else (m.splitOn ",").mapM parseKV
+    pure (hexOfBytes (Martian.JsonBytes.encodeRawMap h ps))
+  | "encarr", [xs] => do
+    let xs ← parseHexList xs
+    pure (hexOfBytes (Martian.JsonBytes.encodeRawArr xs))
   | _, _ => none
 
 end Driver.C16
